@@ -9,6 +9,7 @@ from pyvc.heap import (HeapExec, HPath, LoopSpec, Contract, Ref, NONE, XR, Act, 
 from pyvc.hlib import init_heap, emit, frame_goal
 from pyvc.solve import Obl, static, undecided
 from pyvc.runner import main
+from pyvc.source import NotFound
 from contracts import wiring as W
 
 W_N = "contracts.wiring_native"
@@ -181,7 +182,7 @@ def build(run):
             f(run)
         except Unsupported as ex_:
             run.add(undecided(f"{fq}/subset", f"outside the verified subset: {ex_}", fn=fq, meta={"replay": rp}))
-        except KeyError as ex_:
+        except NotFound as ex_:
             run.add(static(f"{fq}/exists", False, f"function under contract not found: {ex_}", fn=fq))
     # bounded stand-in (level B): text -> tree -> value end to end, incl. infix->postfix (shunting-yard) which is not under contract
     depth = 3 if run.tier == "quick" else 4
